@@ -234,6 +234,9 @@ func supervise(r *mon.Run, mode string, shard int, to time.Duration) {
 			fmt.Sprintf("child process died with exit %d (%s) while executing mode=%s type=%s input=%x", res.Exit, site, modeOf(c), typ, clipCase(c)),
 			map[string]interface{}{"case": c, "log": logHT})
 		r.Count("child_deaths", 1)
+		if typ == "" && c != nil && c.Mode == "untyped" {
+			typ = untypedName
+		}
 		if typ == "" || attempt >= maxRestarts {
 			r.Inconclusive("shard %s-%d abandoned after a death that cannot be quarantined (type %q, attempt %d): units >= %d unexplored", mode, shard, typ, attempt, flushed)
 			return
@@ -270,7 +273,9 @@ func warmup(tg *target) {
 // runBytesAll: one byte string against the untyped API and a set of targets.
 func runBytesAll(r *mon.Run, b []byte, tgs []*target, o byteOpts) {
 	ri := refOf(b)
-	checkUntyped(r, b, ri, o.origin)
+	if !skipUntyped {
+		checkUntyped(r, b, ri, o.origin)
+	}
 	for _, tg := range tgs {
 		if tg.skip {
 			cnt[c_pairs_skipped_quarantined_type]++
@@ -281,9 +286,12 @@ func runBytesAll(r *mon.Run, b []byte, tgs []*target, o byteOpts) {
 	}
 }
 
+const untypedName = "<untyped API: Split/CountValues/Stream walkers>"
+
 var (
-	startUnit  uint64
-	flushEvery uint64
+	skipUntyped bool
+	startUnit   uint64
+	flushEvery  uint64
 )
 
 // unitDone: called after every unit; flushes counters + progress periodically.
@@ -314,6 +322,8 @@ func child(r *mon.Run, args []string) {
 	for _, n := range skip {
 		if tg := targetByName(n); tg != nil {
 			tg.skip = true
+		} else if n == untypedName {
+			skipUntyped = true
 		}
 	}
 	if args[0] == "case" {
@@ -422,6 +432,15 @@ func childGen(r *mon.Run, shard int) {
 			warmup(tg)
 		}
 	}
+	// Inputs that claim a size a length-trusting decoder would try to allocate and die of
+	// (2^28 .. 2^48 bytes; larger claims end in a recoverable makeslice panic) are executed last,
+	// one unit each, so that such a death costs no other coverage. On a correct decoder the order is irrelevant.
+	type lateCase struct {
+		tg     *target // nil: hostile string, runs against the allocation targets
+		b      []byte
+		origin string
+	}
+	var late []lateCase
 	item := 0
 	for ti, tg := range targets {
 		for idx := 0; idx < nVal; idx++ {
@@ -429,35 +448,54 @@ func childGen(r *mon.Run, shard int) {
 			if item%nGenShards != shard {
 				continue
 			}
-			if curUnit < startUnit {
-				curUnit++
-				continue
-			}
+			skipping := curUnit < startUnit
 			if tg.skip {
-				cnt[c_pairs_skipped_quarantined_type]++
-				unitDone(r)
+				if skipping {
+					curUnit++
+				} else {
+					cnt[c_pairs_skipped_quarantined_type]++
+					unitDone(r)
+				}
 				continue
 			}
-			enc := checkValue(r, tg, idx)
-			r.Distinct("value", []byte(tg.Name), enc)
-			runBytesAll(r, enc, []*target{tg, iface, raw}, byteOpts{origin: "valid", nJunk: 4})
-			if idx < 1 && ti%14 == 0 {
-				r.Sample(Case{Mode: "value", Type: tg.Name, Index: idx, Input: enc})
+			var enc []byte
+			if skipping {
+				enc, _ = refEncode(genTarget(r, tg, idx).Elem())
+			} else {
+				enc = checkValue(r, tg, idx)
+				r.Distinct("value", []byte(tg.Name), enc)
+				runBytesAll(r, enc, []*target{tg, iface, raw}, byteOpts{origin: "valid", nJunk: 4})
+				if idx < 1 && ti%14 == 0 {
+					r.Sample(Case{Mode: "value", Type: tg.Name, Index: idx, Input: enc})
+				}
 			}
 			if idx < nMut {
 				rng := r.Rand("mutate", tg.Name, idx)
 				for _, mk := range mutKinds {
 					b := mutate(rng, enc, mk)
 					origin := "mut:" + mk
+					if claimsSizeIn(b, 1<<28, 1<<48) {
+						late = append(late, lateCase{tg, b, origin})
+						continue
+					}
+					if skipping {
+						continue
+					}
 					cnt[c_mutated_strings]++
 					runBytesAll(r, b, []*target{tg, iface, raw}, byteOpts{origin: origin, nJunk: 3})
 					if tg.Alloc {
 						checkAlloc(r, tg, b, origin)
 					}
-					checkAlloc(r, iface, b, origin)
+					if !iface.skip {
+						checkAlloc(r, iface, b, origin)
+					}
 				}
 			}
-			unitDone(r)
+			if skipping {
+				curUnit++
+			} else {
+				unitDone(r)
+			}
 		}
 	}
 	// hostile headers: every string against every type; allocation + reader entry points on the Alloc subset
@@ -465,11 +503,15 @@ func childGen(r *mon.Run, shard int) {
 		if i%nGenShards != shard {
 			continue
 		}
+		b := hostile(r.Rand("hostile", i))
+		if claimsSizeIn(b, 1<<28, 1<<48) {
+			late = append(late, lateCase{nil, b, "hostile"})
+			continue
+		}
 		if curUnit < startUnit {
 			curUnit++
 			continue
 		}
-		b := hostile(r.Rand("hostile", i))
 		cnt[c_hostile_strings]++
 		runBytesAll(r, b, targets, byteOpts{origin: "hostile", nJunk: 2})
 		for _, tg := range allocT {
@@ -483,6 +525,30 @@ func childGen(r *mon.Run, shard int) {
 		}
 		unitDone(r)
 	}
+	defer func() { // after the fixed shapes below
+		flushEvery = 1
+		for _, lc := range late {
+			if curUnit < startUnit {
+				curUnit++
+				continue
+			}
+			tgs := allocT
+			if lc.tg != nil {
+				tgs = []*target{lc.tg, iface, raw}
+				cnt[c_mutated_strings]++
+			} else {
+				cnt[c_hostile_strings]++
+			}
+			cnt[c_late_huge_claim_strings]++
+			runBytesAll(r, lc.b, tgs, byteOpts{origin: lc.origin, nJunk: 2})
+			for _, tg := range tgs {
+				if !tg.skip && tg.Alloc {
+					checkAlloc(r, tg, lc.b, lc.origin)
+				}
+			}
+			unitDone(r)
+		}
+	}()
 	// fixed hostile shapes: deep nesting and many tiny elements (allocation amplification)
 	if shard == 0 {
 		depths := []int{10, 100, 1000}
